@@ -161,6 +161,11 @@ func TestMain(m *testing.M) {
 	if f, err := os.OpenFile(os.DevNull, os.O_WRONLY, 0); err == nil {
 		os.Stderr = f
 	}
+	if _, n := ev.Shard(); n > 1 {
+		// thorough: 16 shard processes share the machine; with 16 Ps each they
+		// spend their time in futex handoffs of the pipes
+		runtime.GOMAXPROCS(4)
+	}
 	dbms.VerifAuthRate(1e12)
 	// the checker's coin flip (which of two conflicting transactions is
 	// aborted) would make the two sides of a differential disagree
